@@ -16,6 +16,8 @@ model as a finite table holding the implementation's own float arguments (exact 
 exponentials); Gumbel noise is regenerated with the primitive F.gumbel_softmax uses after re-seeding
 torch and handed to the model.  Oracle: the sentences of the property on the implementation; summary() and export() must report / materialise
 the arg-max alternative of the CURRENT raw coefficients (also right after an alpha update, before any forward) and agree.
+Forward passes run in all three autograd modes (normal, torch.no_grad(), torch.inference_mode()); alpha is replaced by
+in-place copy_, `.data =` and load_state_dict, also between two forwards without any mode / option call in between.
 """
 import math, itertools, json
 import time
@@ -43,6 +45,36 @@ def me30(v):
     """float -> (m, e) with v ~ m * 2^e, 30-bit mantissa"""
     f, e = math.frexp(v)
     return (int(round(f * (1 << 30))), e - 30)
+
+
+GRAD_MODES = ('grad', 'no_grad', 'inference')
+ROUTES = ('copy', 'data', 'load')
+
+
+def grad_ctx(mode):
+    """autograd mode a forward pass runs in: normal / torch.no_grad() / torch.inference_mode()"""
+    import contextlib
+    torch = _torch()
+    return torch.no_grad() if mode == 'no_grad' else torch.inference_mode() if mode == 'inference' else contextlib.nullcontext()
+
+
+def set_alpha(param_owner, new, route):
+    """alpha := new by one of the three routes real code uses: in-place copy_ (optimizer step), `.data =`
+    (plinio/methods/mps/utils.py), load_state_dict (checkpoint)"""
+    torch = _torch()
+    if route == 'data':
+        param_owner.alpha.data = new.clone()
+    elif route == 'load':
+        param_owner.load_state_dict({'alpha': new.clone()}, strict=False)
+    else:
+        with torch.no_grad():
+            param_owner.alpha.copy_(new)
+
+
+def pytorch_inference_limit(ex):
+    """PyTorch forbids using / updating a tensor created under torch.inference_mode() in autograd afterwards; a
+    sequence that runs into this restriction is cut there (counted), it says nothing about the property"""
+    return isinstance(ex, RuntimeError) and 'nference tensor' in str(ex)
 
 
 def _torch():
@@ -156,9 +188,8 @@ class Obj:
             self.top.eval()
             return ['eval']
         if op[0] == 'opt':
-            with torch.no_grad():
-                a = torch.tensor(op[1], dtype=torch.float32)
-                self.q.alpha.copy_(a.t() if self.kind == 'chan' else a[0])
+            a = torch.tensor(op[1], dtype=torch.float32)
+            set_alpha(self.q, a.t().contiguous() if self.kind == 'chan' else a[0], op[2] if len(op) > 2 else 'copy')
             return ['opt', [[frac(v) for v in col] for col in op[1]]]
         if op[0] == 'fwd':
             seed = op[1]
@@ -175,7 +206,8 @@ class Obj:
                 zg = (al + noise) / Timpl
                 tab.append((Tq, [z30(a_) + z30(n_) for a_, n_ in zip(flat(al), flat(noise))], [me30(math.exp(z_)) for z_ in flat(zg)]))
             torch.manual_seed(seed)
-            self.top(self.x)
+            with grad_ctx(op[2] if len(op) > 2 else 'grad'):
+                self.top(self.x)
             nz = self.cols(noise) if uses_noise else []
             margin = None
             if uses_noise:
@@ -256,6 +288,9 @@ def exec_case(spec):
                 res['fails'].append(('op-raised', 'EXC:TypeError %s on %r' % (str(ex)[:150], op), i))
             break
         except Exception as ex:
+            if pytorch_inference_limit(ex):
+                res['cut'] = i
+                break
             res['mops'].append([op[0]])
             res['steps'].append(None)
             res['fails'].append(('op-raised', 'EXC:%s %s on %r' % (type(ex).__name__, str(ex)[:150], op), i))
@@ -296,6 +331,9 @@ def exec_case(spec):
                 if ev is not None and ev != best:
                     res['fails'].append(('supernet:evaluated-onehot-differs-from-export', 'evaluated one-hot at %d, exported %d' % (ev, best), len(spec['ops'])))
             except Exception as ex:
+                if pytorch_inference_limit(ex):
+                    res['cut'] = len(spec['ops'])
+                    return res
                 res['fails'].append(('supernet:export-raised', 'EXC:%s %s' % (type(ex).__name__, str(ex)[:200]), len(spec['ops'])))
     return res
 
@@ -382,6 +420,29 @@ def specs_config(ctx):
                 a1[0][k], a1[0][o2] = a1[0][o2], a1[0][k]
             out.append({'fam': 'flip', 'kind': 'comb', 'n': n, 'c': 1, 'ctor': (T, h, g, False), 'alpha': a0, 'mode': 'train' if tr else 'eval',
                         'ops': [('fwd', rng.randrange(1 << 30)), ('opt', a1)], 'export': True, 'fresh': True})
+    # forward -> alpha := alpha' (arg-max moved; by copy_ / .data = / load_state_dict) -> forward, all in ONE autograd mode
+    # (grad / torch.no_grad() / torch.inference_mode()) and with NO train()/eval()/option call in between
+    for gm in GRAD_MODES:
+        for route in ROUTES:
+            for h, g, tr in itertools.product((False, True), repeat=3):
+                for kind in ('layer', 'chan', 'comb'):
+                    for rep in range(1 if ctx.quick else 3):
+                        n = rng.randint(2, 8)
+                        c = rng.choice([1, 2, 3, 8, 16]) if kind == 'chan' else 1
+                        if kind == 'chan' and rng.random() < 0.3:
+                            c = n                      # square matrix: a transposition error cannot hide behind a shape error
+                        a0, a1 = gen_alpha(rng, n, c), gen_alpha(rng, n, c)
+                        for j in range(c):
+                            if argmax_first(a1[j]) == argmax_first(a0[j]):
+                                k, o2 = argmax_first(a1[j]), (argmax_first(a1[j]) + 1 + rng.randrange(n - 1)) % n
+                                a1[j][k], a1[j][o2] = a1[j][o2], a1[j][k]
+                        ops = [('fwd', rng.randrange(1 << 30), gm)] * rng.randint(1, 2)
+                        ops = [('fwd', rng.randrange(1 << 30), gm) for _ in ops] + [('opt', a1, route), ('fwd', rng.randrange(1 << 30), gm)]
+                        sp = {'fam': 'stale', 'kind': kind, 'n': n, 'c': c, 'ctor': (rng.choice(TEMPS), h, g, False), 'alpha': a0,
+                              'mode': 'train' if tr else 'eval', 'ops': ops}
+                        if kind == 'comb':
+                            sp.update(export=True, fresh=True)
+                        out.append(sp)
     # every length / the extreme matrix shapes at least once per tier, in eval mode and hard training
     for n in sizes_l:
         for kind, c in (('layer', 1), ('comb', 1), ('chan', 16), ('chan', 1)):
@@ -420,7 +481,8 @@ def alphabet(kind, thorough):
             ops += [('upd', t, None, None, None)] + [('upd', t, h, g, d) for h in (True, False) for g in (True, False) for d in (True, False)]
     else:
         ops += [('upd', t, h, g, d) for t in ts for h in tf for g in tf for d in tf]
-    ops += [('train',), ('eval',), ('fwd', 0), ('opt', A0[kind]), ('opt', A1[kind])]
+    ops += [('train',), ('eval',), ('fwd', 0, 'grad'), ('fwd', 0, 'no_grad')] + ([('fwd', 0, 'inference')] if thorough else [])
+    ops += [('opt', A0[kind], 'copy'), ('opt', A0[kind], 'load'), ('opt', A1[kind], 'data'), ('opt', A1[kind], 'copy' if not thorough else 'load')]
     return ops
 
 
@@ -431,9 +493,13 @@ def abs_key(r, fine=False):
     if r['init'] is None or (r['steps'] and r['steps'][-1] is None):
         return None
     st = r['final']
-    content, stamp = 'init', None
+    content, stamp, lastmode = 'init', None, None
     cur = r['init']
     for op, s in zip(r['spec']['ops'], r['steps']):
+        if op[0] == 'fwd':
+            lastmode = None if (len(op) < 3 or op[2] == 'grad') else 'nograd'     # last forward ran without autograd ...
+        if op[0] in ('train', 'eval', 'upd'):
+            lastmode = None                                                       # ... and no mode / option call since
         if op[0] == 'fwd' and cur['name'] != 'sample_alpha_none':
             if cur['name'] == 'sample_alpha_gs' and cur['training']:
                 content = 'gs-hard' if cur['hard'] else 'gs-soft'
@@ -442,7 +508,7 @@ def abs_key(r, fine=False):
             stamp = (cur['alpha'], cur['T'])
         cur = s
     fresh = stamp is not None and stamp[0] == st['alpha'] and (content == 'oh' or stamp[1] == st['T'])
-    key = (st['name'], st['hard'], st['training'], content, fresh or content.startswith('gs'))
+    key = (st['name'], st['hard'], st['training'], content, fresh or content.startswith('gs'), lastmode)
     if fine:
         key += (float(st['T']), tuple(tuple(float(v) for v in c) for c in st['alpha']),
                 None if stamp is None or content.startswith('gs') else (tuple(tuple(float(v) for v in c) for c in stamp[0]), None if content == 'oh' else float(stamp[1])))
@@ -469,7 +535,7 @@ def bfs(ctx, pool, kind, roots, maxdepth):
         jobs = []
         for root, path in frontier:
             for op in ops:
-                o = ('fwd', hash_str(repr((path, depth))) % (1 << 30)) if op[0] == 'fwd' else op
+                o = ('fwd', hash_str(repr((path, depth))) % (1 << 30), op[2]) if op[0] == 'fwd' else op
                 jobs.append(dict(root, ops=path + [o], fam='closure'))
         rs = list(pool.map(exec_case, jobs, chunksize=32))
         frontier = []
@@ -495,7 +561,7 @@ def specs_random(ctx, count):
         for _ in range(rng.randint(5, 12)):
             x = rng.random()
             if x < 0.4:
-                ops.append(('fwd', rng.randrange(1 << 30)))
+                ops.append(('fwd', rng.randrange(1 << 30), rng.choice(GRAD_MODES)))
             elif x < 0.7:
                 t = rng.choice([None, None] + TEMPS)
                 if kind == 'comb':
@@ -507,9 +573,9 @@ def specs_random(ctx, count):
             elif x < 0.9:
                 ops.append(('eval',))
             else:
-                ops.append(('opt', gen_alpha(rng, n, c)))
+                ops.append(('opt', gen_alpha(rng, n, c), rng.choice(ROUTES)))
         if rng.random() < 0.6:
-            ops.append(('fwd', rng.randrange(1 << 30)))
+            ops.append(('fwd', rng.randrange(1 << 30), rng.choice(GRAD_MODES)))
         g = rng.random() < 0.5
         out.append({'fam': 'random', 'kind': kind, 'n': n, 'c': c, 'ctor': (rng.choice(TEMPS), rng.random() < 0.3, g, False if kind == 'comb' else rng.random() < 0.15),
                     'alpha': gen_alpha(rng, n, c), 'mode': 'train', 'ops': ops, 'export': kind == 'comb' and rng.random() < 0.3, 'fresh': True})
@@ -570,7 +636,8 @@ def exec_model(spec):
             elif op[0] == 'eval':
                 p.eval()
             elif op[0] == 'fwd':
-                p(x)
+                with grad_ctx(spec.get('grad_mode', 'grad')):
+                    p(x)
         if spec['final_mode'] == 'eval':
             p.eval()
         else:
@@ -580,19 +647,27 @@ def exec_model(spec):
             cols = (lambda t: [[frac(v) for v in t[:, j].tolist()] for j in range(t.shape[1])] if t.dim() == 2 else [[frac(v) for v in t.tolist()]])
             before[n_] = {'name': m.sample_alpha.__name__, 'hard': bool(m.hard_softmax), 'training': bool(m.training), 'T': frac(float(m.temperature)),
                           'alpha': cols(m.alpha.detach()), 'theta': cols(m.theta_alpha.detach()), 'prec': [int(v) for v in m.precision.tolist()]}
-        p(x)
-        for n_, m in qs.values():
-            b = before[n_]
-            after = dict(b, theta=cols(m.theta_alpha.detach()))
-            for key, what in oracle_forward('layer', b, after):
-                res['fails'].append((key, '%s: %s' % (n_, what), n_))
-            Timpl = m.temperature.item()
-            al = m.alpha.detach()
-            flat = (lambda t: (t.t() if t.dim() == 2 else t).flatten().tolist())
-            tab = [(frac(Timpl), [z30(a_) for a_ in flat(al)], [me30(math.exp(z_)) for z_ in flat(al / Timpl)])]
-            if not (b['name'] == 'sample_alpha_gs' and b['training']):
-                res['samples'].append({'q': n_, 'state': dict(b, gumbel=b['name'] == 'sample_alpha_gs', disabled=b['name'] == 'sample_alpha_none'),
-                                       'tab': tab, 'theta': after['theta']})
+        def forward_and_judge(phase):
+            before = {}
+            for n_, m in qs.values():
+                before[n_] = {'name': m.sample_alpha.__name__, 'hard': bool(m.hard_softmax), 'training': bool(m.training), 'T': frac(float(m.temperature)),
+                              'alpha': cols(m.alpha.detach()), 'theta': cols(m.theta_alpha.detach()), 'prec': [int(v) for v in m.precision.tolist()]}
+            with grad_ctx(spec.get('grad_mode', 'grad')):
+                p(x)
+            for n_, m in qs.values():
+                b = before[n_]
+                after = dict(b, theta=cols(m.theta_alpha.detach()))
+                for key, what in oracle_forward('layer', b, after):
+                    res['fails'].append((key + phase, '%s: %s' % (n_, what), n_))
+                Timpl = m.temperature.item()
+                al = m.alpha.detach()
+                flat = (lambda t: (t.t() if t.dim() == 2 else t).flatten().tolist())
+                tab = [(frac(Timpl), [z30(a_) for a_ in flat(al)], [me30(math.exp(z_)) for z_ in flat(al / Timpl)])]
+                if not (b['name'] == 'sample_alpha_gs' and b['training']):
+                    res['samples'].append({'q': n_, 'state': dict(b, gumbel=b['name'] == 'sample_alpha_gs', disabled=b['name'] == 'sample_alpha_none'),
+                                           'tab': tab, 'theta': after['theta']})
+            return before
+        before = forward_and_judge('')
         def check_selection(phase):
             # summary() / export() against argmax of the CURRENT raw coefficients of the selector each layer uses
             # phase 'after-forward': also against the evaluated one-hot;  phase 'after-alpha-update': the coefficients
@@ -667,10 +742,17 @@ def exec_model(spec):
                         k, o2 = argmax_first(new[j]), (argmax_first(new[j]) + 1 + rng.randrange(P - 1)) % P
                         new[j][k], new[j][o2] = new[j][o2], new[j][k]
                 a = torch.tensor(new, dtype=torch.float32)
-                m.alpha.copy_(a.t() if m.alpha.dim() == 2 else a[0])
+                set_alpha(m, a.t().contiguous() if m.alpha.dim() == 2 else a[0], spec.get('route', 'copy'))
         check_selection('after-alpha-update')
+        # ... and now a forward pass in the same autograd mode, with no train()/eval()/option call in between: the
+        # evaluated coefficients must follow the NEW alpha, and agree with summary()/export()
+        before = forward_and_judge(':second-forward-after-alpha-update')
+        check_selection('after-forward')
     except Exception as ex:
         import traceback
+        if pytorch_inference_limit(ex):
+            res['cut'] = True
+            return res
         res['fails'].append(('mps:model-run-raised', 'EXC:%s %s' % (type(ex).__name__, traceback.format_exc()[-400:]), None))
     return res
 
@@ -693,7 +775,7 @@ def specs_models(ctx, count):
                 ops.append((rng.choice(['train', 'eval']),))
         out.append({'seed': rng.randrange(1 << 30), 'w1': rng.choice([2, 4, 6]), 'w2': rng.choice([3, 4, 8]), 'per_channel': rng.random() < 0.5,
                     'wprec': wp, 'aprec': ap, 'ctor': (rng.choice(TEMPS), rng.random() < 0.4, rng.random() < 0.4, False), 'ops': ops,
-                    'final_mode': 'eval' if i % 3 else 'train'})
+                    'final_mode': 'eval' if i % 3 else 'train', 'grad_mode': GRAD_MODES[(i // 3) % 3] if i % 3 else rng.choice(GRAD_MODES), 'route': rng.choice(ROUTES)})
     return out
 
 
@@ -737,7 +819,7 @@ def run(ctx):
     ctx.rule = ('(a) one forward per (temperature of {0.05..20}) x (hard, gumbel, disable_sampling, train/eval) on per-layer vectors (length 1..8), per-channel matrices (up to 8x16) and '
                 'SuperNet combiners (length 1..8, inside a real SuperNet) with pairwise coefficient gaps >= 0.05; (b) breadth-first closure of the abstract state '
                 '(sampler fn, hard, training, temperature, coefficients, content of theta) under the whole op alphabet (update_softmax_options with every None/True/False combination '
-                'of hard, gumbel, disable_sampling and temperature None/new, train, eval, forward, optimizer step); (c) random sequences of 6..13 ops (also ending without a forward) and forward -> alpha := new alpha with the arg-max moved -> summary()/export() with no forward in between; (d) whole MPS models: summary()/export() after a forward and again after replacing every alpha (arg-max moved) without a forward, '
+                'of hard, gumbel, disable_sampling and temperature None/new, train, eval, forward, optimizer step); (c) random sequences of 6..13 ops (also ending without a forward) and forward -> alpha := new alpha with the arg-max moved -> summary()/export() with no forward in between; (c2) forward(s) -> alpha := new alpha (arg-max moved, by copy_ / .data = / load_state_dict) -> forward, all in one autograd mode (grad / torch.no_grad() / torch.inference_mode()) with no mode or option call in between; forwards of (b),(c) run with and without autograd, alpha updates use the three routes; (d) whole MPS models: summary()/export() after a forward and again after replacing every alpha (arg-max moved) without a forward, '
                 'against argmax(alpha) and the evaluated one-hot.  non-trivial = at least one forward pass with more than one alternative; distinct = distinct (object kind, initial state, op sequence)')
     from concurrent.futures import ProcessPoolExecutor
     import multiprocessing as mp
